@@ -7,10 +7,10 @@ LEVEL_TEXT = ("For every enumerated program (named catalogue + all specs over 3 
               "directed and undirected graph on <=3 nodes and every initial status vector, every execution of the real simulator up to the "
               "event horizon is run; in every reached state the offered events, their probabilities and the clock rate equal the reference "
               "chain's, and nothing else is offered.")
-LEVEL_NOTE = "trusted: reference chain eonmc/ref.py:spec_rates; horizon 3/4 events from every initial status vector; <=3 (4) nodes; float tolerance 1e-9"
+LEVEL_NOTE = "trusted: reference chain eonmc/ref.py:spec_rates; horizon 4/5 events (generated programs 3/4) from every initial status vector; <=3 (4) nodes; float tolerance 1e-9"
 RULE = "one spec = (program, graph, initial status vector, horizon); all draw outcomes enumerated; non-trivial = execution with >=1 event"
-BOUNDS = {"quick": "catalogue of 11 programs x all undirected graphs on <=3 nodes + all digraph shapes on <=3 nodes x all initial status vectors, horizon 3; 133 generated programs x 4 graphs x 27 initial vectors, horizon 2",
-          "thorough": "all labelled digraphs on <=3 nodes, C4/S4, horizon 4; 1204 generated programs, horizon 3"}
+BOUNDS = {"quick": "catalogue of 11 programs x all undirected graphs on <=3 nodes + all digraph shapes on <=3 nodes x all initial status vectors, horizon 4; 133 generated programs x 4 graphs x 27 initial vectors, horizon 3",
+          "thorough": "all labelled digraphs on <=3 nodes, C4/S4, horizon 5; 1204 generated programs, horizon 4"}
 ASSUMPTIONS = ["event horizon from every initial status vector instead of unbounded runs", "statuses limited to <=4 symbols"]
 
 
